@@ -1,7 +1,7 @@
 (* C09 - luafmt changes only white space, works on every valid program, never drops code.
    Property theorems only; proofs live in Proofs/AstWriterProofs.v. *)
-From PV Require Import Base.Prelude Spec.LuaTokens Spec.LuaGrammar Model.Tokens Model.WriterChunks Model.AstWriter
-  Proofs.AstWriterProofs.
+From PV Require Import Base.Prelude Spec.LuaTokens Spec.LuaGrammar Model.Tokens Model.Parser Model.ParserInst Model.WriterChunks
+  Model.AstWriter Model.WriterDomain Model.FmtSpaces Model.FmtSpacesInst Proofs.FmtSpacesProofs Proofs.AstWriterProofs Proofs.AstWriterTop.
 
 (* no silent loss: if a token that is not white space or a comment lies at or after the end position of the
    root node (the parser stopped early), the writer - whatever its spaces function - raises ParserError and
@@ -11,3 +11,273 @@ Theorem C09_no_silent_loss : forall ts W tag s e sh fs,
   writer_chunks ts (Node tag s e sh fs) = Err ParserError /\ writer_text W ts (Node tag s e sh fs) = Err ParserError.
 Proof. exact writer_refuses_unparsed_tail. Qed.
 Print Assumptions C09_no_silent_loss.
+
+(* alignment: on the tree the parser built for a program it read to the end, inside the writer's domain
+   (Model/WriterDomain.v: writable = the lexer's token spelling, no parenthesised prefix with a suffix
+   `(f or g)(x)`, no `if c do ... end`, none of the forms the parser accepts although they are not programs:
+   `()`, `{,1}`, `for =1,2 do end`, `if then`, `if f(x) y=1`), the AST writer's walk never raises - no AssertionError, IndexError, AttributeError, no
+   ParserError - ends with its cursor at the end of the token list, and its output chunk list is aligned with
+   the input: the Code chunks are exactly the significant tokens of ts, in order, each with the token's own
+   code (sig_codes ts 0 = the list of (index, code) of the tokens that are not white space, newlines or
+   comments), and the chunks tile the token list, so that the Trivia chunks carry exactly the white-space and
+   comment runs in between.  view root is the Python-visible tree; the statement holds for every spaces function
+   (the chunk list does not depend on it). *)
+Theorem C09_aligned : forall ts root e,
+  lua_parse ts = Ok (root, e) -> consumed ts e = true -> writable ts root = true ->
+  exists cs, writer_chunks ts (view root) = Ok (cs, zlen ts) /\ codes_of cs = sig_codes ts 0 /\ tiling ts 0 cs (zlen ts).
+Proof. exact writer_aligned. Qed.
+Print Assumptions C09_aligned.
+
+(* non-vacuity: a program with a function, a table constructor with all three field forms, a one-line if with
+   else, a compound assignment, parentheses, a numeric for, a method call with a string argument, varargs and
+   a comment is parsed to its end and lies in the domain *)
+Definition C09_example_tokens : list token :=
+  [mkTok CKeyword 0 [102; 117; 110; 99; 116; 105; 111; 110] [102; 117; 110; 99; 116; 105; 111; 110];
+   mkTok CSpace 0 [32] [32];
+   mkTok CName 0 [102] [102];
+   mkTok CSymbol 0 [40] [40];
+   mkTok CName 0 [97] [97];
+   mkTok CSymbol 0 [44] [44];
+   mkTok CSpace 0 [32] [32];
+   mkTok CSymbol 0 [46; 46; 46] [46; 46; 46];
+   mkTok CSymbol 0 [41] [41];
+   mkTok CNewline 0 [10] [10];
+   mkTok CSpace 0 [32; 32] [32; 32];
+   mkTok CKeyword 0 [108; 111; 99; 97; 108] [108; 111; 99; 97; 108];
+   mkTok CSpace 0 [32] [32];
+   mkTok CName 0 [116] [116];
+   mkTok CSpace 0 [32] [32];
+   mkTok CSymbol 0 [61] [61];
+   mkTok CSpace 0 [32] [32];
+   mkTok CSymbol 0 [123] [123];
+   mkTok CNumber 0 [49] [49];
+   mkTok CSymbol 0 [44] [44];
+   mkTok CSpace 0 [32] [32];
+   mkTok CName 0 [120] [120];
+   mkTok CSymbol 0 [61] [61];
+   mkTok CNumber 0 [50] [50];
+   mkTok CSymbol 0 [59] [59];
+   mkTok CSpace 0 [32] [32];
+   mkTok CSymbol 0 [91] [91];
+   mkTok CNumber 0 [51] [51];
+   mkTok CSymbol 0 [93] [93];
+   mkTok CSymbol 0 [61] [61];
+   mkTok CName 0 [103] [103];
+   mkTok CSymbol 0 [40] [40];
+   mkTok CName 0 [97] [97];
+   mkTok CSymbol 0 [41] [41];
+   mkTok CSymbol 0 [125] [125];
+   mkTok CNewline 0 [10] [10];
+   mkTok CSpace 0 [32; 32] [32; 32];
+   mkTok CKeyword 0 [105; 102] [105; 102];
+   mkTok CSpace 0 [32] [32];
+   mkTok CSymbol 0 [40] [40];
+   mkTok CName 0 [97] [97];
+   mkTok CSymbol 0 [41] [41];
+   mkTok CSpace 0 [32] [32];
+   mkTok CName 0 [116] [116];
+   mkTok CSymbol 0 [46] [46];
+   mkTok CName 0 [120] [120];
+   mkTok CSpace 0 [32] [32];
+   mkTok CSymbol 0 [43; 61] [43; 61];
+   mkTok CSpace 0 [32] [32];
+   mkTok CNumber 0 [49] [49];
+   mkTok CSpace 0 [32] [32];
+   mkTok CKeyword 0 [101; 108; 115; 101] [101; 108; 115; 101];
+   mkTok CSpace 0 [32] [32];
+   mkTok CName 0 [97] [97];
+   mkTok CSpace 0 [32] [32];
+   mkTok CSymbol 0 [61] [61];
+   mkTok CSpace 0 [32] [32];
+   mkTok CSymbol 0 [40] [40];
+   mkTok CName 0 [97] [97];
+   mkTok CSpace 0 [32] [32];
+   mkTok CSymbol 0 [43] [43];
+   mkTok CSpace 0 [32] [32];
+   mkTok CNumber 0 [49] [49];
+   mkTok CSymbol 0 [41] [41];
+   mkTok CSpace 0 [32] [32];
+   mkTok CSymbol 0 [42] [42];
+   mkTok CSpace 0 [32] [32];
+   mkTok CNumber 0 [50] [50];
+   mkTok CSpace 0 [32] [32];
+   mkTok CComment 0 [45; 45; 32; 99] [45; 45; 32; 99];
+   mkTok CNewline 0 [10] [10];
+   mkTok CSpace 0 [32; 32] [32; 32];
+   mkTok CKeyword 0 [102; 111; 114] [102; 111; 114];
+   mkTok CSpace 0 [32] [32];
+   mkTok CName 0 [105] [105];
+   mkTok CSymbol 0 [61] [61];
+   mkTok CNumber 0 [49] [49];
+   mkTok CSymbol 0 [44] [44];
+   mkTok CSymbol 0 [35] [35];
+   mkTok CName 0 [116] [116];
+   mkTok CSpace 0 [32] [32];
+   mkTok CKeyword 0 [100; 111] [100; 111];
+   mkTok CSpace 0 [32] [32];
+   mkTok CName 0 [116] [116];
+   mkTok CSymbol 0 [91] [91];
+   mkTok CName 0 [105] [105];
+   mkTok CSymbol 0 [93] [93];
+   mkTok CSymbol 0 [58] [58];
+   mkTok CName 0 [109] [109];
+   mkTok CString 34 [115] [34; 115; 34];
+   mkTok CSpace 0 [32] [32];
+   mkTok CKeyword 0 [101; 110; 100] [101; 110; 100];
+   mkTok CNewline 0 [10] [10];
+   mkTok CSpace 0 [32; 32] [32; 32];
+   mkTok CKeyword 0 [114; 101; 116; 117; 114; 110] [114; 101; 116; 117; 114; 110];
+   mkTok CSpace 0 [32] [32];
+   mkTok CSymbol 0 [46; 46; 46] [46; 46; 46];
+   mkTok CNewline 0 [10] [10];
+   mkTok CKeyword 0 [101; 110; 100] [101; 110; 100];
+   mkTok CNewline 0 [10] [10]].
+
+Example C09_aligned_nonvacuous :
+  exists root e, lua_parse C09_example_tokens = Ok (root, e) /\ consumed C09_example_tokens e = true /\
+                 writable C09_example_tokens root = true /\ (60 <? zlen (sig_codes C09_example_tokens 0)) = true.
+Proof.
+  destruct (lua_parse C09_example_tokens) as [[root e]|] eqn:E; [|vm_compute in E; discriminate E].
+  exists root, e. split; [reflexivity|]. vm_compute in E. injection E as <- <-. vm_compute. repeat split; reflexivity.
+Qed.
+
+(* only white space changes (chunk level).  Under the hypotheses of C09_aligned:
+   - the echo writer (LuaASTEchoWriter) writes the input back byte for byte: its text is the concatenation of the
+     codes of all tokens of the input;
+   - for every spaces function W that is white-space faithful - the bytes it writes for a run of white-space /
+     newline / comment tokens are, outside white space (space, tab, line feed, carriage return), the bytes of the
+     run, in order - the text is  chunks_text W cs  for the aligned chunk list cs of C09_aligned: every code token of
+     the input, in order, verbatim, with W's rendering of the white-space run in between; hence outside white space the
+     written text has exactly the bytes of the input, in order (comment text is kept up to white space).
+   echo_spaces and fmt_spaces w (= `p8tool luafmt --indentwidth w`, every w) are white-space faithful
+   (C10_run_keeps_comment_text).  Not stated here: that the real lexer reads the written text back into the same
+   tokens (same_code / holds_C09 on re-lexed output are evaluated by the monitor; the lexer is C07's subject). *)
+Theorem C09_whitespace_only : forall ts root e,
+  lua_parse ts = Ok (root, e) -> consumed ts e = true -> writable ts root = true ->
+  writer_text echo_spaces ts (view root) = Ok (flat_map tcode ts) /\
+  forall W, ws_faithful W ->
+    exists cs, writer_text W ts (view root) = Ok (chunks_text W cs) /\
+               codes_of cs = sig_codes ts 0 /\ tiling ts 0 cs (zlen ts) /\
+               nonws (chunks_text W cs) = nonws (flat_map tcode ts).
+Proof. exact writer_whitespace_only. Qed.
+Print Assumptions C09_whitespace_only.
+
+Theorem C09_luafmt_faithful : forall w, ws_faithful (fmt_spaces w).
+Proof. exact fmt_faithful. Qed.
+Print Assumptions C09_luafmt_faithful.
+
+Theorem C09_echo_faithful : ws_faithful echo_spaces.
+Proof. exact echo_faithful. Qed.
+Print Assumptions C09_echo_faithful.
+
+(* for luafmt with any indent width: same bytes outside white space as the input *)
+Corollary C09_luafmt_whitespace_only : forall w ts root e,
+  lua_parse ts = Ok (root, e) -> consumed ts e = true -> writable ts root = true ->
+  exists out, writer_text (fmt_spaces w) ts (view root) = Ok out /\ nonws out = nonws (flat_map tcode ts).
+Proof.
+  intros w ts root e Hp Hc Hw. destruct (writer_whitespace_only ts root e Hp Hc Hw) as [_ H].
+  destruct (H (fmt_spaces w) (fmt_faithful w)) as (cs & H1 & _ & _ & H2). eexists. split; [exact H1 | exact H2].
+Qed.
+Print Assumptions C09_luafmt_whitespace_only.
+
+(* non-vacuity: on the example program both writers succeed; luafmt (width 2) changes the text (the comment gets two
+   spaces) but not its bytes outside white space *)
+Example C09_whitespace_only_nonvacuous :
+  exists root e out, lua_parse C09_example_tokens = Ok (root, e) /\
+    writer_text echo_spaces C09_example_tokens (view root) = Ok (flat_map tcode C09_example_tokens) /\
+    writer_text (fmt_spaces 2) C09_example_tokens (view root) = Ok out /\
+    zlist_eqb out (flat_map tcode C09_example_tokens) = false /\ nonws out = nonws (flat_map tcode C09_example_tokens).
+Proof.
+  eexists _, _, _. split; [vm_compute; reflexivity|]. split; [vm_compute; reflexivity|]. split; [vm_compute; reflexivity|].
+  split; vm_compute; reflexivity.
+Qed.
+
+(* the exclusions are needed: on these programs (parsed to their end, each outside exactly one of the conditions of
+   writable) the walk raises AssertionError: the known findings C09-paren-suffix-assert and C09-shortif-do-body-assert. *)
+Definition C09_paren_prefix_tokens : list token :=
+  [mkTok CSymbol 0 [40] [40];
+   mkTok CName 0 [102] [102];
+   mkTok CSpace 0 [32] [32];
+   mkTok CKeyword 0 [111; 114] [111; 114];
+   mkTok CSpace 0 [32] [32];
+   mkTok CName 0 [103] [103];
+   mkTok CSymbol 0 [41] [41];
+   mkTok CSymbol 0 [40] [40];
+   mkTok CName 0 [120] [120];
+   mkTok CSymbol 0 [41] [41];
+   mkTok CNewline 0 [10] [10]].
+Definition C09_if_do_tokens : list token :=
+  [mkTok CKeyword 0 [105; 102] [105; 102];
+   mkTok CSpace 0 [32] [32];
+   mkTok CSymbol 0 [40] [40];
+   mkTok CName 0 [97] [97];
+   mkTok CSymbol 0 [41] [41];
+   mkTok CSpace 0 [32] [32];
+   mkTok CKeyword 0 [100; 111] [100; 111];
+   mkTok CSpace 0 [32] [32];
+   mkTok CName 0 [120] [120];
+   mkTok CSymbol 0 [61] [61];
+   mkTok CNumber 0 [49] [49];
+   mkTok CSpace 0 [32] [32];
+   mkTok CKeyword 0 [101; 110; 100] [101; 110; 100];
+   mkTok CNewline 0 [10] [10]].
+
+Definition C09_refutes (ts : list token) : bool :=
+  match lua_parse ts with
+  | Ok (root, e) =>
+      consumed ts e &&
+      match writer_chunks ts (view root) with Err AssertionError => true | _ => false end
+  | Err _ => false
+  end.
+
+Theorem C09_aligned_paren_prefix_refuted : C09_refutes C09_paren_prefix_tokens = true.
+Proof. vm_compute. reflexivity. Qed.
+
+Theorem C09_aligned_if_do_refuted : C09_refutes C09_if_do_tokens = true.
+Proof. vm_compute. reflexivity. Qed.
+
+
+(* the one-line if with an empty else branch (`if (a) b=1 else`, which the parser accepts and whose else branch it
+   drops from the tree) is inside the domain since the writers look for the `else` token themselves (fix b221330;
+   before it the writers raised AssertionError or, at the end of the program, silently wrote the program without its
+   `else`): both writers reproduce it *)
+Definition C09_empty_else_tokens : list token :=
+  [mkTok CKeyword 0 [100; 111] [100; 111];
+   mkTok CSpace 0 [32] [32];
+   mkTok CKeyword 0 [105; 102] [105; 102];
+   mkTok CSpace 0 [32] [32];
+   mkTok CSymbol 0 [40] [40];
+   mkTok CName 0 [97] [97];
+   mkTok CSymbol 0 [41] [41];
+   mkTok CSpace 0 [32] [32];
+   mkTok CName 0 [98] [98];
+   mkTok CSymbol 0 [61] [61];
+   mkTok CNumber 0 [49] [49];
+   mkTok CSpace 0 [32] [32];
+   mkTok CKeyword 0 [101; 108; 115; 101] [101; 108; 115; 101];
+   mkTok CSpace 0 [32] [32];
+   mkTok CSymbol 0 [59] [59];
+   mkTok CSpace 0 [32] [32];
+   mkTok CComment 0 [45; 45; 32; 120] [45; 45; 32; 120];
+   mkTok CNewline 0 [10] [10];
+   mkTok CKeyword 0 [101; 110; 100] [101; 110; 100];
+   mkTok CSpace 0 [32] [32];
+   mkTok CKeyword 0 [105; 102] [105; 102];
+   mkTok CSpace 0 [32] [32];
+   mkTok CSymbol 0 [40] [40];
+   mkTok CName 0 [97] [97];
+   mkTok CSymbol 0 [41] [41];
+   mkTok CSpace 0 [32] [32];
+   mkTok CName 0 [98] [98];
+   mkTok CSymbol 0 [61] [61];
+   mkTok CNumber 0 [49] [49];
+   mkTok CSpace 0 [32] [32];
+   mkTok CKeyword 0 [101; 108; 115; 101] [101; 108; 115; 101]].
+
+Example C09_empty_short_else_in_domain :
+  exists root e, lua_parse C09_empty_else_tokens = Ok (root, e) /\ consumed C09_empty_else_tokens e = true /\
+    writable C09_empty_else_tokens root = true /\
+    writer_text echo_spaces C09_empty_else_tokens (view root) = Ok (flat_map tcode C09_empty_else_tokens).
+Proof.
+  eexists _, _. split; [vm_compute; reflexivity|]. split; [vm_compute; reflexivity|]. split; vm_compute; reflexivity.
+Qed.
